@@ -15,10 +15,12 @@ MODULES = {
     "C01": ("lockstep", "run_c01"),
     "C02": ("lockstep", "run_c02"),
     "C03": ("lockstep", "run_c03"),
+    "C05": ("c05", "run"),
     "C07": ("c07", "run"),
     "C12": ("c12", "run"),
     "C17": ("lockstep", "run_c17"),
     "C18": ("c18", "run"),
+    "C20": ("c20", "run"),
 }
 
 
